@@ -18,7 +18,8 @@ PROVED (this file):
   `mh_jaccard_withheld_iff` (… or je_exceeds_threshold).
 * the comparison / result classes as plumbing over the MinHash-level answers: `avg_some_iff`, `max_some_iff`, `max_none_iff`,
   `present_values_are_used`, `zero_is_a_present_value` (0.0 is a present value), `prefetch_fields`, `prefetch_withheld_iff`,
-  `prefetch_withheld_iff_unreliable`, `csv_cell_written_iff`, `search_ani_source`; regression `falsy_zero_counterexample`.
+  `prefetch_withheld_iff_unreliable`, `csv_cell_written_iff`, `search_ani_source`; regression `falsy_zero_counterexample`;
+  compare-level entry points: `compare_entry_withheld_is_zero`, `compare_avg_entry`.
 * `size_is_accurate` decision structure (binom.cdf / pmf as parameters): `size_is_accurate_iff`,
   `size_is_accurate_refusals`, `exact_prob_branches`, `size_accuracy_monotone`.
 * float-free interval laws: `point_is_root_of_noise_free_equation`, `ci_roots_bracket_point` (the ordering hypothesis of
@@ -425,6 +426,23 @@ theorem search_ani_source (ci : Bool) (r12 mc : CiAns V) (j : JacAns V) :
   ⟨rfl, rfl, rfl, rfl, rfl, rfl⟩
 
 end Classes
+
+/-- the compare-level entry points (`compare_all_pairs(return_ani=True)` serial and multi-process, `compare_serial_containment`
+    / `_max_containment` / `_avg_containment`): a withheld estimate becomes exactly 0.0 — never a number derived from the distance —
+    and a present estimate is passed through unchanged (regression: seeded C17d made the multi-process worker return `1 - dist`
+    for sketches whose size estimate is inaccurate) -/
+theorem compare_entry_withheld_is_zero {V : Type} (zero : V) (a : Option V) :
+    (a = none → compareAniEntry zero a = zero) ∧ (∀ v, a = some v → compareAniEntry zero a = v) := by
+  constructor
+  · intro h; rw [h]; rfl
+  · intro v h; rw [h]; rfl
+
+theorem compare_avg_entry {V : Type} (avg : V → V → V) (zero : V) (a1 a2 : Option V) :
+    ((a1 = none ∨ a2 = none) → compareAvgAniEntry avg zero a1 a2 = zero) ∧
+    (∀ x y, a1 = some x → a2 = some y → compareAvgAniEntry avg zero a1 a2 = avg x y) := by
+  constructor
+  · rintro (h | h) <;> cases a1 <;> cases a2 <;> simp_all [compareAvgAniEntry, compareAniEntry, avgAni]
+  · intro x y h1 h2; rw [h1, h2]; rfl
 
 /-- over ℝ: two reliable disjoint sketches (both directional ANIs = 0) give average 0 and maximum 0, written to the CSV -/
 theorem zero_is_a_present_value :
